@@ -253,6 +253,11 @@ Definition verify_choice_fixed (marks : list nat) (outs : list str) (gen : str) 
   if forallb (fun m => Nat.ltb m (List.length outs)) marks then verify_choice marks outs gen
   else Err EWrongAnswer.
 
+(* what the code does NOW.  After the proposed fix is applied to /repo this is the
+   one line to change (to [verify_choice_fixed]); the unguarded theorem
+   C20_verify_choice_fixed_iff then is the theorem about the code. *)
+Definition verify_choice_impl := verify_choice.
+
 Section Verify.
   Variable run : str -> str.       (* renderer.go: runEvy(source, m.ResultType) *)
 
@@ -368,8 +373,7 @@ Fixpoint set_nth (i : nat) (v : N) (l : bytes) : bytes :=
   | x :: t, S i' => x :: set_nth i' v t
   end.
 
-Fixpoint upto (n : nat) : list nat :=   (* [0; …; n-1] *)
-  match n with O => [] | S n' => upto n' ++ [n'] end.
+Definition upto (n : nat) : list nat := seq 0 n.   (* [0; …; n-1] *)
 
 Definition enc_err (e : err) : sx :=
   Sym (s_ match e with
@@ -446,11 +450,11 @@ Definition verify_case (fixed ignore : bool) (key : sx) (seal vnone : bool) (ty 
   let f := if seal then toy_seal_fm (s_ "K") toy_key tt f0 else Ok f0 in
   let privs := if sym_is key "right" then s_ "K" else if sym_is key "wrong" then s_ "W" else [] in
   match f with
-  | Err e => Lst [Sym (s_ "seal-error"); enc_err e]
+  | Err e => enc_err e
   | Ok f =>
       enc_res_unit (question_verify bytes toy_parse toy_rsa_dec toy_gcm_open toy_b64_dec
                       (fun _ => run_out)
-                      (if fixed then verify_choice_fixed else verify_choice)
+                      (if fixed then verify_choice_fixed else verify_choice_impl)
                       ignore privs vnone f is_src outs gen)
   end.
 
@@ -461,8 +465,33 @@ Definition marks_case (ty : atype) (ans : str) : sx :=
   | Err e => enc_err e
   end.
 
+(* (fmops "answer" (op…)), op ∈ seal | unseal | unseal-wrong | unseal-nokey: the
+   front-matter state machine from an unsealed front matter; per operation
+   (class, answer, sealed-answer set?).  A failed operation leaves the front
+   matter unchanged (the Go methods assign only after success). *)
+Fixpoint fmops_run (f : fm) (ops : list sx) : list sx :=
+  match ops with
+  | [] => []
+  | o :: t =>
+      let r := if sym_is o "seal" then toy_seal_fm (s_ "K") toy_key tt f
+               else if sym_is o "unseal" then toy_unseal_fm (s_ "K") f
+               else if sym_is o "unseal-wrong" then toy_unseal_fm (s_ "W") f
+               else toy_unseal_fm [] f in
+      match r with
+      | Ok f' => Lst [Sym (s_ "ok"); Str (answer f'); sx_bool (negb (is_nil (sealed f')))] :: fmops_run f' t
+      | Err e => Lst [enc_err e; Str (answer f); sx_bool (negb (is_nil (sealed f)))] :: fmops_run f t
+      end
+  end.
+
+(* (spaces): every code point below 0x3100 that is_space accepts (is_space is
+   a finite disjunction of comparisons with constants below 0x3100, so this
+   is all of them); compared with Go's unicode.IsSpace over all code points *)
+Definition spaces_case : sx :=
+  Lst (map (fun n => Int (Z.of_nat n)) (filter (fun n => is_space (N.of_nat n)) (upto 12544))).
+
 Definition seal_case (x : sx) : sx :=
   match x with
+  | Lst [tag] => if sym_is tag "spaces" then spaces_case else Sym (s_ "decode-error")
   | Lst [tag; Str h] =>
       match dec_hex h with
       | Some c => if sym_is tag "unframe" then unframe_case c
@@ -476,6 +505,8 @@ Definition seal_case (x : sx) : sx :=
       | _, _ => Sym (s_ "decode-error")
       end
   | Lst [tag; Str h; Lst l] =>
+      if sym_is tag "fmops" then Lst (fmops_run (mkFm TextAnswer h []) l)
+      else
       match dec_hex h, dec_hexes l with
       | Some c0, Some cs => if sym_is tag "classify" then classify_case c0 cs else Sym (s_ "decode-error")
       | _, _ => Sym (s_ "decode-error")
